@@ -524,6 +524,22 @@ Proof.
   intros H. apply react_cancelled. destruct (is_some (ko_parent o)); cbn [orb]; [reflexivity | exact H].
 Qed.
 
+(* the reaction writes nothing: it reaches the same state whether or not the peer still takes
+   bytes — a peer that is silent because it is hung is closed and replaced all the same *)
+Theorem reaction_independent_of_peer accepts me o late disc st :
+  run_ops accepts me (react_ops o late disc) st = Some (ka_react me o late disc st) /\
+  existsb op_is_write (react_ops o late disc) = false.
+Proof.
+  unfold react_ops, ka_react. destruct (ko_result o) as [|e|]; try (split; reflexivity).
+  destruct (is_some (ko_parent o) || late || disc); split; reflexivity.
+Qed.
+
+(* what it excludes: a reaction that first writes a packet (say DISCONNECT, 0xE0) never closes
+   the connection of a peer that has stopped reading *)
+Example ex_write_before_close_hangs :
+  run_ops false 1%nat [OpSetError EPingTimeout; OpWrite 224; OpClose] (fun _ => mk_cli None false) = None.
+Proof. reflexivity. Qed.
+
 (* the keep-alive goroutine is never started with an interval NewTicker would reject *)
 Theorem rc_keepalive_no_panic I T s o : rc_keepalive I T s = Some o -> ko_result o <> KA_panic.
 Proof.
